@@ -12,16 +12,17 @@ LOG=$WT/seed_out/confirm.log; : > $LOG
 git checkout -q -- src tests 2>>$LOG; rm -f tests/seed_demo.rs
 git apply --check seed_out/patch.diff 2>>$LOG || { echo "FAIL: patch does not apply cleanly"; exit 1; }
 FEATARG=""; [ -n "$FEAT" ] && FEATARG="--features $FEAT"
+TC=""; case "$FEAT" in *pattern*) TC="+nightly";; esac
 # demo without patch -> must pass
 cp seed_out/demo.rs tests/seed_demo.rs
-if ! cargo test --offline -j 6 $FEATARG --test seed_demo >>$LOG 2>&1; then echo "FAIL: demo fails WITHOUT the patch"; rm -f tests/seed_demo.rs; exit 1; fi
+if ! cargo $TC test --offline -j 6 $FEATARG --test seed_demo >>$LOG 2>&1; then echo "FAIL: demo fails WITHOUT the patch"; rm -f tests/seed_demo.rs; exit 1; fi
 rm -f tests/seed_demo.rs
 git apply seed_out/patch.diff
 # suite with patch -> must pass
 if ! cargo test --workspace --no-fail-fast --offline -j 6 >>$LOG 2>&1; then echo "FAIL: existing suite fails with the patch"; exit 1; fi
 NPASS=$(grep -E "^test result: ok" $LOG | awk '{s+=$4} END{print s}')
 cp seed_out/demo.rs tests/seed_demo.rs
-if cargo test --offline -j 6 $FEATARG --test seed_demo >>$LOG 2>&1; then echo "FAIL: demo passes WITH the patch"; rm -f tests/seed_demo.rs; exit 1; fi
+if cargo $TC test --offline -j 6 $FEATARG --test seed_demo >>$LOG 2>&1; then echo "FAIL: demo passes WITH the patch"; rm -f tests/seed_demo.rs; exit 1; fi
 rm -f tests/seed_demo.rs
 mkdir -p $OUT
 cp seed_out/patch.diff $OUT/patch.diff; cp seed_out/demo.rs $OUT/demo.rs
